@@ -107,6 +107,124 @@ def truth_views(nodes):
             n["view"].append(view(m["id"], "node:%d" % j, sorted(cnt.items())))
 
 
+# ---------------------------------------------------------------- clusters whose upstream sets change between requests
+def connect_op(entry, u_):
+    return {"entry": entry, "kind": "connect", "up": u_}
+
+
+def disconnect_op(entry, uid):
+    return {"entry": entry, "kind": "disconnect", "up_id": H(uid)}
+
+
+def is_op(rq):
+    return rq["kind"] in ("connect", "disconnect")
+
+
+MODEL_BEH = {"gone": "dialfail", "dialfail_once": "dialfail"}
+
+
+def phases(cl, co):
+    """A dynamic cluster (upstreams connect / disconnect / announce go-away between requests; ONE continuous run of the real
+    servers, so anything they remember - pooled connections, round-robin positions - carries over) is cut into static
+    phases: [(static cluster, observations, original request indices)]. Monitors and the Coq comparison work phase by
+    phase. A request may carry "_after": [["remove", node, upstream id] | ["beh", node, upstream id, behaviour]] - what the
+    request itself does to the registry (a go-away upstream is deregistered by the first dial; a flaky one recovers)."""
+    if not cl.get("dynamic"):
+        return [(cl, co, list(range(len(cl["requests"]))))]
+    nodes = copy.deepcopy(cl["nodes"])
+    out, cur = [], []
+
+    def flush():
+        if cur:
+            c = {k: v for k, v in cl.items() if k not in ("requests", "nodes", "dynamic")}
+            c["nodes"] = copy.deepcopy(nodes)
+            for n in c["nodes"]:
+                for u_ in n["upstreams"]:
+                    u_["beh"] = MODEL_BEH.get(u_["beh"], u_["beh"])
+            c["requests"] = [cl["requests"][i] for i in cur]
+            c["id"] = "%s@%d" % (cl["id"], cur[0])
+            out.append((c, {"requests": [co["requests"][i] for i in cur]}, list(cur)))
+            cur.clear()
+
+    for ri, rq in enumerate(cl["requests"]):
+        if ri >= len(co.get("requests") or []):
+            break
+        if rq["kind"] == "connect":
+            flush()
+            nodes[rq["entry"]]["upstreams"].append(copy.deepcopy(rq["up"]))
+        elif rq["kind"] == "disconnect":
+            flush()
+            nodes[rq["entry"]]["upstreams"] = [u_ for u_ in nodes[rq["entry"]]["upstreams"] if u_["id"] != rq["up_id"]]
+        else:
+            cur.append(ri)
+            if rq.get("_after"):
+                flush()
+                for a in rq["_after"]:
+                    ups = nodes[a[1]]["upstreams"]
+                    if a[0] == "remove":
+                        nodes[a[1]]["upstreams"] = [u_ for u_ in ups if u_["id"] != H(a[2])]
+                    else:
+                        for u_ in ups:
+                            if u_["id"] == H(a[2]):
+                                u_["beh"] = a[3]
+    flush()
+    return out
+
+
+def hdr_req(entry, ep, rng=None, forwarded=False, **kw):
+    hs = [("x-piko-endpoint", ep)] + ([("x-piko-forward", "true")] if forwarded else [])
+    if rng is not None and rng.random() < 0.4:
+        kw.setdefault("method", rng.choice(["GET", "POST", "PUT"]))
+        if kw["method"] != "GET":
+            kw.setdefault("body", {"len": rng.choice([1, 17, 1000]), "seed": rng.randrange(10 ** 6)})
+    return http_req(entry, host="gw.example.com", headers=hs, **kw)
+
+
+def gen_dynamic_cluster(rng, cid, scenario=None):
+    """structured histories on one continuous cluster:
+    reconnect - an endpoint served by another node gets a local upstream (and loses it again): local first, at once;
+    twins     - endpoint ids that differ only by what a URL parser would normalise away ("t" / "t:80" / "T"), alternating;
+    goaway    - a forwarded request meets an upstream that has announced go-away: 502, never a second hop;
+    flaky     - one failed dial does not deregister an upstream that is still connected"""
+    sc = scenario or rng.choice(["reconnect", "twins", "goaway", "flaky"])
+    e = rng.choice(["e", "e1", "svc"])
+    if sc == "reconnect":
+        nodes = [{"id": "n0", "upstreams": [], "view": [view("n1", "node:1", [(e, 1)])]},
+                 {"id": "n1", "upstreams": [up("ub", e)], "view": [view("n0", "node:0", [])]}]
+        reqs = [hdr_req(0, e, rng) for _ in range(rng.randint(1, 3))]
+        reqs.append(connect_op(0, up("ua", e)))
+        reqs += [hdr_req(0, e, rng, forwarded=rng.random() < 0.3) for _ in range(rng.randint(2, 4))]
+        reqs.append(disconnect_op(0, "ua"))
+        reqs += [hdr_req(0, e, rng) for _ in range(rng.randint(1, 2))]
+        if rng.random() < 0.5:
+            reqs.append(connect_op(0, up("ua2", e)))
+            reqs += [hdr_req(0, e, rng) for _ in range(2)]
+    elif sc == "twins":
+        twins = [e, e + ":80", e.upper() if e.upper() != e else e + ".", e + ":"]
+        rng.shuffle(twins)
+        twins = twins[:rng.randint(2, 4)]
+        where = [rng.randrange(2) for _ in twins]
+        nodes = [{"id": "n0", "upstreams": [], "view": []}, {"id": "n1", "upstreams": [], "view": []}]
+        for k, (t, w) in enumerate(zip(twins, where)):
+            nodes[w]["upstreams"].append(up("u%d" % k, t))
+        truth_views(nodes)
+        reqs = [hdr_req(rng.randrange(2), rng.choice(twins), rng) for _ in range(rng.randint(6, 10))]
+    elif sc == "goaway":
+        nodes = [{"id": "n0", "upstreams": [], "view": [view("n1", "node:1", [(e, 1)])]},
+                 {"id": "n1", "upstreams": [up("ug", e, beh="gone")], "view": [view("n2", "node:2", [(e, 1)])]},
+                 {"id": "n2", "upstreams": [up("uc", e)], "view": [view("n1", "node:1", [(e, 1)])]}]
+        first = hdr_req(0, e, rng) if rng.random() < 0.7 else hdr_req(1, e, rng, forwarded=True)
+        first["_after"] = [["remove", 1, "ug"]]
+        reqs = [first, hdr_req(0, e, rng), hdr_req(1, e, rng), hdr_req(1, e, rng, forwarded=True), hdr_req(2, e, rng)]
+    else:
+        nodes = [{"id": "n0", "upstreams": [up("uf", e, beh="dialfail_once")], "view": [view("n1", "node:1", [(e, 1)])]},
+                 {"id": "n1", "upstreams": [up("ub", e)], "view": [view("n0", "node:0", [(e, 1)])]}]
+        first = hdr_req(0, e, rng)
+        first["_after"] = [["beh", 0, "uf", "answer"]]
+        reqs = [first] + [hdr_req(0, e, rng, forwarded=rng.random() < 0.3) for _ in range(rng.randint(2, 4))]
+    return {"id": cid, "timeout_ms": NORMAL_TIMEOUT_MS, "kind": "adversarial", "dynamic": True, "scenario": sc, "nodes": nodes, "requests": reqs}
+
+
 # ---------------------------------------------------------------- corpus (hand-picked, always first)
 def corpus():
     cs = []
@@ -457,6 +575,8 @@ def gen_timeout_cluster(rng, cid):
 
 
 def gen_cluster(rng, cid, profile):
+    if rng.random() < profile.get("p_dynamic", 0.0):
+        return gen_dynamic_cluster(rng, cid)
     kind = rng.choices(list(profile["kinds"].keys()), list(profile["kinds"].values()))[0]
     if kind == "timeout":
         return gen_timeout_cluster(rng, cid)
@@ -493,9 +613,9 @@ def gen_access_log(rng):
 
 
 PROFILES = {
-    "C01": {"kinds": {"consistent": 45, "adversarial": 45, "failure": 10}, "p_tcp": 0.25, "p_rich": 0.15},
-    "C06": {"kinds": {"adversarial": 70, "consistent": 20, "failure": 10}, "p_tcp": 0.2, "p_rich": 0.1},
-    "C08": {"kinds": {"consistent": 45, "failure": 20, "timeout": 25, "adversarial": 10}, "p_tcp": 0.03, "p_rich": 0.85, "p_agent": 0.25,
+    "C01": {"kinds": {"consistent": 45, "adversarial": 45, "failure": 10}, "p_tcp": 0.25, "p_rich": 0.15, "p_dynamic": 0.15},
+    "C06": {"kinds": {"adversarial": 70, "consistent": 20, "failure": 10}, "p_tcp": 0.2, "p_rich": 0.1, "p_dynamic": 0.25},
+    "C08": {"kinds": {"consistent": 45, "failure": 20, "timeout": 25, "adversarial": 10}, "p_tcp": 0.03, "p_rich": 0.85, "p_agent": 0.25, "p_dynamic": 0.08,
             "min_reqs": 5, "max_reqs": 8},
 }
 
@@ -627,6 +747,13 @@ def monitor_c01(cl, ri, rq, ob):
     else:
         if ob["status"] not in (400, 401, 502, 504):
             return fail("status-class", "request not delivered to an upstream was answered %d (expected a gateway error 400/401/502/504)" % ob["status"])
+    if rq["kind"] == "http" and ep != "" and not is_ws(rq):
+        # whatever the views say: a node that has connected, healthy upstreams for E serves E itself
+        mine = local_ups(cl["nodes"][rq["entry"]], ep)
+        if mine and all(u_["beh"] == "answer" and u_.get("delay_ms", 0) < cl["timeout_ms"] // 2 for u_ in mine) \
+                and (rq.get("resp") or {}).get("delay_ms", 0) < cl["timeout_ms"] // 2 and not ob.get("stamped"):
+            return fail("local-available", "node %s has %d connected upstream(s) for %r but answered %d itself"
+                        % (cl["nodes"][rq["entry"]]["id"], len(mine), ep, ob["status"]))
     if cl["kind"] == "consistent" and rq["kind"] == "http" and ep != "" and not client_forwarded(rq):
         have = any(local_ups(n, ep) for n in cl["nodes"])
         if have and not ob.get("stamped"):
@@ -794,10 +921,11 @@ def run_monitor(pid, clusters, outs):
         if co.get("panic"):
             res.append((ci, len(co.get("requests") or []), fail("panic", "harness panic/watchdog: " + co["panic"])))
             continue
-        for ri, (rq, ob) in enumerate(zip(cl["requests"], co["requests"])):
-            f = mon(cl, ri, rq, ob)
-            if f:
-                res.append((ci, ri, f))
+        for pc, po, ris in phases(cl, co):
+            for k, (rq, ob) in enumerate(zip(pc["requests"], po["requests"])):
+                f = mon(pc, k, rq, ob)
+                if f:
+                    res.append((ci, ris[k], f))
     return res
 
 
@@ -944,8 +1072,9 @@ def parse_m(out):
 def correspondence(pid, wd, clusters, outs, shard=16, tag="px"):
     """model vs implementation inside Coq; returns [{case, req, codes, names}]"""
     # clusters whose upstreams sit behind a real agent reverse proxy are monitor-only: the model has no third hop
-    ok = [(i, c, o) for i, (c, o) in enumerate(zip(clusters, outs))
-          if not o.get("panic") and len(o["requests"]) == len(c["requests"]) and not c.get("via_agent")]
+    ok = [((i, ris), pc, po) for i, (c, o) in enumerate(zip(clusters, outs))
+          if not o.get("panic") and len(o["requests"]) == len(c["requests"]) and not c.get("via_agent")
+          for pc, po, ris in phases(c, o)]
     jobs = [ok[i:i + shard] for i in range(0, len(ok), shard)]
 
     def work(arg):
@@ -957,7 +1086,12 @@ def correspondence(pid, wd, clusters, outs, shard=16, tag="px"):
         mm = parse_m(out)
         if rc != 0 or mm is None:
             raise RuntimeError("coq evaluation of proxy cases failed:\n" + out[-3000:])
-        return [(job[c][0], r, codes) for c, r, codes in mm]
+        res = []
+        for c, r, codes in mm:
+            (ci, ris), pc, _ = job[c]
+            kept = [ris[k] for k, rq in enumerate(pc["requests"]) if not is_env_fault(rq)]      # the model skips environment faults
+            res.append((ci, kept[r] if r < len(kept) else ris[-1], codes))
+        return res
 
     dis = []
     with cf.ThreadPoolExecutor(max_workers=8) as ex:
@@ -991,6 +1125,9 @@ def host_correspondence(pid, wd, hosts, results, shard=1300, tag="px"):
 # ---------------------------------------------------------------- shrinking
 def single_request_case(cl, ri):
     c = copy.deepcopy(cl)
+    if cl.get("dynamic"):
+        c["requests"] = c["requests"][:ri + 1]       # the history up to the request is part of the input
+        return c
     c["requests"] = [c["requests"][ri]]
     c["id"] = cl["id"] + "-r%d" % ri
     return c
@@ -1000,6 +1137,11 @@ def shrink(pid, binary, wd, cl, ri, sig):
     """smallest replayable case: the single request on its cluster if that still fails, then without nodes / view entries /
     headers that do not matter"""
     mon = MONITORS[pid]
+    if cl.get("dynamic"):
+        c = copy.deepcopy(cl)
+        last = ri
+        c["requests"] = c["requests"][:last + 1]
+        return c
 
     def fails(c):
         try:
@@ -1062,7 +1204,8 @@ def run_property(ctx, pid, nclusters_quick, nhosts):
     tier = ctx["tier"]
     nclusters = nclusters_quick if tier == "quick" else nclusters_quick * 15
     profile = PROFILES[pid]
-    clusters = corpus() + [gen_cluster(rng, "g%d" % i, profile) for i in range(nclusters)]
+    clusters = corpus() + [gen_dynamic_cluster(random.Random(7 + k), "corpus-dyn-" + sc, sc) for k, sc in enumerate(["reconnect", "twins", "goaway", "flaky"])] \
+        + [gen_cluster(rng, "g%d" % i, profile) for i in range(nclusters)]
     hosts = gen_hosts(rng, nhosts if tier == "quick" else nhosts * 10)
     for hp in ["e.example.com", "e.example.com:8000", "1.2.3.4", "[::1]:80", "localhost", "", "e.example.com.", "a.b:c:d", "[e.x]:80", "[::ffff:1.2.3.4]"]:
         hosts.insert(0, ("", hp))
@@ -1150,6 +1293,9 @@ def run_property(ctx, pid, nclusters_quick, nhosts):
         dist["cluster_kind"][cl["kind"]] = dist["cluster_kind"].get(cl["kind"], 0) + 1
         dist["nodes"][str(len(cl["nodes"]))] = dist["nodes"].get(str(len(cl["nodes"])), 0) + 1
         for rq, ob in zip(cl["requests"], co.get("requests") or []):
+            if is_op(rq):
+                dist["kind"][rq["kind"]] = dist["kind"].get(rq["kind"], 0) + 1
+                continue
             s = str(ob["status"]) + ("" if not ob.get("stamped") else "u")
             dist["status"][s] = dist["status"].get(s, 0) + 1
             dist["kind"][rq["kind"]] = dist["kind"].get(rq["kind"], 0) + 1
